@@ -241,6 +241,8 @@ func c02ValueLists() [][]timing.Frac {
 	singles := []timing.Frac{fr(1, 1), fr(2, 1), fr(1, 2), fr(1, 3), fr(2, 3), fr(3, 2), fr(1, 7), fr(5, 4), fr(7, 11), fr(1, 960), fr(1, 1920), fr(3, 1920)}
 	// beyond 16 bits of ticks (69 beats = 66 240 ticks) and far beyond (70 000 beats = 67.2 M ticks, still below 2^28)
 	singles = append(singles, fr(69, 1), fr(70000, 1))
+	// below half a tick: the instance occupies 0 ticks, its notes must still be struck and released
+	singles = append(singles, fr(1, 2000))
 	var r [][]timing.Frac
 	for _, s := range singles {
 		r = append(r, []timing.Frac{s})
@@ -256,7 +258,7 @@ func c02ValueLists() [][]timing.Frac {
 }
 
 func runC02(e *Env) {
-	e.R.Rule = "all histories up to the stated length over {chord C, chord G7, rest} x 26 duration lists (unit and non-unit numerators, denominators not dividing 960, exactly-half-tick values, several fractions per instance), on 1 and 3 tracks; note-on/off ticks compared with exact rational arithmetic, either neighbour on exact ties; distinct = distinct history; non-trivial = contains a fractional or multi-value duration or a rest"
+	e.R.Rule = "all histories up to the stated length over {chord C, chord G7, rest} x 27 duration lists (unit and non-unit numerators, denominators not dividing 960, exactly-half-tick values, several fractions per instance), on 1 and 3 tracks; note-on/off ticks compared with exact rational arithmetic, either neighbour on exact ties; distinct = distinct history; non-trivial = contains a fractional or multi-value duration or a rest"
 	e.R.Assume("reference: math/big rationals; T read from the file header; same-tick order only constrained per track (release before strike of the same key)")
 	e.R.Exclude("total length >= 2^28 ticks; chords with a pitch doubled inside the chord (strike-before-release is then not observable per key)")
 	m, err := newModel(e)
